@@ -185,6 +185,9 @@ func (r *resolver) module(y *Module) error {
 				if err != nil {
 					return fmt.Errorf("%s - %s", i.moduleName, err)
 				}
+				// the name asked for is resolved from here on, whatever the module that was
+				// served calls itself (an import cycle through it must not load it again)
+				r.loadedModules[i.moduleName] = i.module
 				// recurse
 				if err = r.module(i.module); err != nil {
 					return err
